@@ -299,8 +299,10 @@ fn check_case_inner<'a>(case: &'a Case, arena: &Arena<'a>) -> CaseResult {
         return Err(Fail::new("len", format!("rough_tlv_len() is {} but {} bytes were emitted", wrapper.rough_tlv_len(), bytes.len())));
     }
 
-    // View it.
-    let view = MessageView::new(Cow::Borrowed(&bytes[..])).map_err(|e| Fail::new("view:rejects", format!("MessageView rejected the emitted bytes {}: {e}", show(&bytes))))?;
+    // View it, at an address that is 0..15 modulo 16 (messages are found in the middle of buffers).
+    let placed = crate::engine::bytespec::Placed::new(&bytes, crate::engine::bytespec::Placed::misalign_of(&bytes));
+    let bytes = placed.bytes();
+    let view = MessageView::new(Cow::Borrowed(bytes)).map_err(|e| Fail::new("view:rejects", format!("MessageView rejected the emitted bytes {}: {e}", show(&bytes))))?;
     if view.len() != want_pairs.len() || view.is_empty() != want_pairs.is_empty() {
         return Err(Fail::new("view:len", format!("view reports {} pairs, expected {}", view.len(), want_pairs.len())));
     }
